@@ -129,18 +129,18 @@ example : parsePathS false (ascii ['/', 'a', '/', '.', '.', '/', 'b', '/', 'c', 
 
 /-- `serve` answers with a file or a listing only at a tree position whose components are all
 Normal (given a Normal index-file name): the served location is `root/…` for every root. -/
-def ServedInside (ix : Option Bytes) : Served → Prop
+def ServedInside : Served → Prop
   | .file path _ _ => ∀ c ∈ path, isNormalSeg c = true
   | .listing dir => ∀ c ∈ dir, isNormalSeg c = true
   | .panic _ => False
-  | _ => (ix = ix)
+  | _ => True
 
 /-- **C16_serve_inside**: for every configuration, tree, method and request path, the file
 service never panics, and whenever it opens a file or lists a directory, the location is the
 root followed by Normal components only (`resolve root path = root ++ path`). -/
 theorem C16_serve_inside (cfg : Config) (t : Tree) (getOrHead : Bool) (unprocessed : Bytes) (endsSlash : Bool)
     (hix : ∀ ix, cfg.index = some ix → isNormalSeg ix = true) :
-    ServedInside cfg.index (serve cfg t getOrHead unprocessed endsSlash) := by
+    ServedInside (serve cfg t getOrHead unprocessed endsSlash) := by
   unfold serve
   have h := parsePath_post cfg.hidden unprocessed
   split
@@ -179,7 +179,7 @@ after the router's re-quoting (`%XX` decoded except `%25 %2F %2B`) and lossy UTF
 service (mounted at `/`) still never panics and serves only below the root. -/
 theorem C16_request_inside (cfg : Config) (t : Tree) (getOrHead : Bool) (rawUriPath : Bytes)
     (hix : ∀ ix, cfg.index = some ix → isNormalSeg ix = true) :
-    ServedInside cfg.index
+    ServedInside
       (serve cfg t getOrHead (urlPath rawUriPath) (endsWithByte 0x2F (urlPath rawUriPath))) :=
   C16_serve_inside cfg t getOrHead _ _ hix
 
